@@ -5,5 +5,10 @@ package parser
 // VerifLexerStateCount reports how many lexers currently have indentation state in the
 // process-global map (verification hook; only with `-tags verif`).
 func VerifLexerStateCount() int {
-	return lexerStates.Len()
+	n := 0
+	lexerStates.Range(func(_, _ interface{}) bool {
+		n++
+		return true
+	})
+	return n
 }
